@@ -10,15 +10,24 @@ import Driver.Util
      -> ok flen=<len of data file> pad0=<1|0> data=<hex of the data region> tail=<bytes after it>
            shape=[..] vals=<loaded elements, logical C order, same syntax>
         | scaling | ERR:<kind>
-  rtd <class> <endian> <header dtype before the save> <dtype= override> <override byte order = | < | >> <offset | _>
+  rtd <class> <endian> <header dtype before the save> <dtype= override> <byte order of the override OBJECT < | >> <offset | _>
       <shape> <in> <vals>     save with `to_file_map(dtype=override)`; -> as rt, plus ` after=<header dtype after><endian>`
-  rs <class> <endian> <out dtype> <offset | _> <shape> <in> <vals>
-       save, load, save the LOADED image over its own file (`resave`, data materialised first) -> as rt, on the final file
+  rs <class> <endian> <out dtype> <mapped 0|1> <owner chain, as mf> <offset | _> <shape> <in> <vals>
+       save, load, wrap the loaded data (a window onto the file iff <mapped>) in the views that give <owner chain>, save
+       over the own file: the data are materialised first iff `maps_file` (model `mapsFile`) says so -> as rt, final file
+  rth <class> <native < | >> <donor class> <donor endian> <donor dtype> <donor shape> <set_data_dtype after construction | _>
+      <offset | _> <shape> <in> <vals>
+       the image is built as `klass(data, affine, donor_image.header)` (header REUSED from an image of class
+       <donor class> and shape <donor shape>): from_header, update_header, optional set_data_dtype, save, load
+       -> as rt, plus ` hdr=<dim[1..ndim] | MGH dims> glmin=<n>` of the written header
   sn <base|slope> <in> <out> <size> <range: i:<mn>:<mx> | fz | fn | fo>  -> false | true | ERR:WriterError
   codec <name as ,-separated code points>                           -> raw | gz | bz2 | zst
   rd <class> <endian> <out dtype> <shape> <data file length>   -> ok <shape> | ERR:OSError
   opener <name as ,-separated code points>     -> <codec opened for 'wb'> <codec opened for 'rb'>
   hshape <class> <shape>      -> dims=[dim[1..ndim]] glmin=<n> shape=[get_data_shape()] | ERR:HeaderDataError
+  mf <chain: one letter per owner (arr, then .obj of a memoryview / .base of anything else, ...):
+      M np.memmap | N other ndarray | B mmap.mmap | V memoryview | O other; - = none>
+                              -> true | false      (`maps_file`)
   mghshape <shape>            -> <image shape> <header shape | ERR:ValueError> <ok | ERR:HeaderDataError>
 -/
 namespace Nb.Drv.C01
@@ -108,7 +117,9 @@ def report (file : List Nat) (hlen offset : Nat) (e : Endian) (t : DType) (shape
 /-- `e`, `t`: what the writer is given; `re`, `rt`: what the reader finds in the written header;
     `again`: the loaded image is saved over its own file before the report -/
 def runRt (cls : String) (e : Endian) (t : DType) (offset : Option Nat) (shape : List Nat)
-    (xs : List Elem) (re : Endian := e) (rt : DType := t) (again : Bool := false) : String :=
+    (xs : List Elem) (re : Endian := e) (rt : DType := t) (again : Bool := false)
+    (hsOverride : Option (Except Err (List Nat)) := none) (mghDims0 : Option (List Nat) := none)
+    (copyFirst : Bool := true) : String :=
   match lookupClass cls with
   | none => "bad-op"
   | some (layout, hlen, defOff, ftrLen, _, _) =>
@@ -118,8 +129,14 @@ def runRt (cls : String) (e : Endian) (t : DType) (offset : Option Nat) (shape :
       if e ≠ .big ∨ offset.isSome then "bad-op"
       else
         let ishape := mghImageShape shape
+        if let some d0 := mghDims0 then
+          -- header arrives holding `d0` (reused MGH header / fresh): update_header, write, read by the written dims
+          match mghWriteOn d0 (List.replicate hlen 1) (List.replicate ftrLen 2) t.cw ishape (arrOfC ishape xa) with
+          | .error er => errName er
+          | .ok (dims, file) => report file hlen mghDataOffset .big rt (mghGetShape dims)
+        else
         let w := if again then mghResave (List.replicate hlen 1) (List.replicate ftrLen 2) t.cw t.k ishape
-                                 (arrOfC ishape xa) true
+                                 (arrOfC ishape xa) copyFirst
                  else mghWrite (List.replicate hlen 1) (List.replicate ftrLen 2) t.cw ishape (arrOfC ishape xa)
         match w with
         | .error er => errName er
@@ -129,7 +146,7 @@ def runRt (cls : String) (e : Endian) (t : DType) (offset : Option Nat) (shape :
       let off := match offset with
         | none => defOff
         | some o => if layout = "single" ∧ o = 0 then defOff else o
-      match headerShape cls shape with
+      match (match hsOverride with | some r => some r | none => headerShape cls shape) with
       | none => "bad-op"
       | some (.error er) => errName er
       | some (.ok hshape) =>
@@ -137,7 +154,7 @@ def runRt (cls : String) (e : Endian) (t : DType) (offset : Option Nat) (shape :
       else
         if again then
           if hshape ≠ shape then "bad-op" else
-          match resave (List.replicate hlen 1) off e t.cw t.k shape (arrOfC shape xa) true with
+          match resave (List.replicate hlen 1) off e t.cw t.k shape (arrOfC shape xa) copyFirst with
           | .error er => errName er
           | .ok file => report file hlen off re rt shape
         else
@@ -147,14 +164,17 @@ def runRt (cls : String) (e : Endian) (t : DType) (offset : Option Nat) (shape :
 /-- the save of `vals` (already-cast elements `raw`, or integers the model casts after taking the scaling
     decision) with the writer given `(t, e)` and the reader `(rt, re)` -/
 def rtCore (cls : String) (e : Endian) (t : DType) (off : Option Int) (shape : List Nat) (inT vals : String)
-    (re : Endian) (rt : DType) (again : Bool) : String :=
+    (re : Endian) (rt : DType) (again : Bool)
+    (hsOverride : Option (Except Err (List Nat)) := none) (mghDims0 : Option (List Nat) := none)
+    (copyFirst : Bool := true) : String :=
   match off with
   | some (.negSucc _) => "bad-op"
   | _ =>
   let off := off.map Int.toNat
   if inT = "raw" then
     match parseElems? vals with
-    | some xs => if xs.all (fun x => x.length == t.k) then runRt cls e t off shape xs re rt again else "bad-op"
+    | some xs => if xs.all (fun x => x.length == t.k) then runRt cls e t off shape xs re rt again hsOverride mghDims0 copyFirst
+                 else "bad-op"
     | none => "bad-op"
   else
     match parseIntDType? inT, parseIntList? vals, lookupClass cls with
@@ -168,29 +188,127 @@ def rtCore (cls : String) (e : Endian) (t : DType) (off : Option Int) (shape : L
         match need with
         | .error er => errName er
         | .ok true => "scaling"
-        | .ok false => runRt cls e t off shape (vs.map (fun v => [toBits t.cw v])) re rt again
+        | .ok false => runRt cls e t off shape (vs.map (fun v => [toBits t.cw v])) re rt again hsOverride mghDims0 copyFirst
     | _, _, _ => "bad-op"
+
+/-- `_data_type_codes` of a class (regenerated) -/
+def codeTableOf (cls : String) : CodeTable :=
+  match Gen.dtypeCodes.find? (fun c => c.1 = cls) with
+  | some (_, l) => codeTableOfNames l
+  | none => []
+
+/-- header class of an image class (regenerated) -/
+def headerClassOf (cls : String) : Option String := (Gen.headerClasses.find? (fun c => c.1 = cls)).map (·.2)
+
+def intsToNats (l : List Int) : List Nat := l.map Int.toNat
+
+/-- `klass(data, affine, donor.header)`; `donor = dklass(zeros(dshape), affine, dklass.header_class(endianness=de))`
+    with dtype `dt`; then optional `img.set_data_dtype(setdt)`; save; load -/
+def runDonor (cls : String) (native : Endian) (dcls : String) (de : Endian) (dt : DType) (dshape : List Nat)
+    (setdt : Option DType) (off : Option Int) (shape : List Nat) (inT vals : String) : String :=
+  match lookupClass cls, lookupClass dcls, headerClassOf cls, headerClassOf dcls with
+  | some (layout, _, _, _, _, _), some (dlayout, _, _, _, _, _), some hc, some dhc =>
+    let same := hc == dhc
+    -- the donor's header after ITS constructor: (shape fields | MGH dims), has a glmin field, reported shape
+    let donor : Option (Except Err (ShapeFields × List Nat × Bool × List Nat)) :=
+      if dlayout = "mgh" then
+        some (match mghUpdate mghFreshDims (mghImageShape dshape) with
+          | .error er => .error er
+          | .ok dims => .ok (⟨[], 0⟩, dims, false, mghGetShape dims))
+      else match lookupShapeRule dcls with
+        | none => none
+        | some (rD, dmD, gmD) =>
+          some (match updateHeaderShape rD dmD gmD ⟨[], 0⟩ dshape with
+            | .error er => .error er
+            | .ok f => match hdrGetShape rD f with
+              | .error er => .error er
+              | .ok hs => .ok (f, mghFreshDims, gmD != 0, intsToNats hs))
+    match donor with
+    | none => "bad-op"
+    | some (.error er) => errName er
+    | some (.ok (df, ddims, dHasGlmin, donorShape)) =>
+      if layout = "mgh" then
+        -- MGHHeader.from_header: copy of an MGH header, else a fresh one (whose dtype the model does not know)
+        let d0 := if same then ddims else mghFreshDims
+        match (if same then some (setdt.getD dt) else setdt) with
+        | none => "bad-op"
+        | some t =>
+          let r := rtCore cls .big t off shape inT vals .big t false none (some d0)
+          if r.startsWith "ok " then
+            match mghWriteOn d0 [] [] t.cw (mghImageShape shape) (fun _ => []) with
+            | .ok (dims, _) => r ++ " hdr=" ++ showList dims ++ " glmin=0"
+            | .error er => errName er
+          else r
+      else match lookupShapeRule cls with
+        | none => "bad-op"
+        | some (r, dm, gm) =>
+          match fromHeader same native r dm gm (fun t => (codeOf (codeTableOf cls) t).isSome) dHasGlmin
+                  ⟨de, dt, df⟩ donorShape with
+          | .error er => errName er
+          | .ok h' =>
+            match updateHeaderShape r dm gm h'.fields shape with
+            | .error er => errName er
+            | .ok f =>
+              let t := setdt.getD h'.dtype
+              let hs := match hdrGetShape r f with
+                | .error er => Except.error er
+                | .ok hs => .ok (intsToNats hs)
+              let res := rtCore cls h'.endian t off shape inT vals h'.endian t false (some hs) none
+              if res.startsWith "ok " then res ++ " hdr=" ++ showList f.dims ++ " glmin=" ++ toString f.glmin
+              else res
+  | _, _, _, _ => "bad-op"
+
+def parseChain? (chain : String) : Option (List BaseNode) :=
+  if chain = "-" then some []
+  else chain.toList.mapM (fun c =>
+    if c = 'M' then some BaseNode.memmap else if c = 'N' then some .ndarray
+    else if c = 'B' then some .mmapBuf else if c = 'V' then some .memview
+    else if c = 'O' then some .other else none)
 
 def handle : List String → String
   | ["rt", cls, e, out, off, shape, inT, vals] =>
       match parseEndian? e, dtypeOfName out, parseOptInt? off, parseNatList? shape with
       | some e, some t, some off, some shape => rtCore cls e t off shape inT vals e t false
       | _, _, _, _ => "bad-op"
-  | ["rs", cls, e, out, off, shape, inT, vals] =>
-      match parseEndian? e, dtypeOfName out, parseOptInt? off, parseNatList? shape with
-      | some e, some t, some off, some shape => rtCore cls e t off shape inT vals e t true
-      | _, _, _, _ => "bad-op"
-  | ["rtd", cls, e, hdr0, ovr, spell, off, shape, inT, vals] =>
-      match parseEndian? e, dtypeOfName hdr0, dtypeOfName ovr, parseSpell? spell, parseOptInt? off,
+  | ["rth", cls, native, dcls, de, ddt, dshape, setdt, off, shape, inT, vals] =>
+      match parseEndian? native, parseEndian? de, dtypeOfName ddt, parseNatList? dshape, parseOptInt? off,
+            parseNatList? shape with
+      | some native, some de, some dt, some dshape, some off, some shape =>
+          if setdt = "_" then runDonor cls native dcls de dt dshape none off shape inT vals
+          else match dtypeOfName setdt with
+            | some t => runDonor cls native dcls de dt dshape (some t) off shape inT vals
+            | none => "bad-op"
+      | _, _, _, _, _, _ => "bad-op"
+  | ["rs", cls, e, out, mapped, chain, off, shape, inT, vals] =>
+      match parseEndian? e, dtypeOfName out, parseOptInt? off, parseNatList? shape, parseChain? chain with
+      | some e, some t, some off, some shape, some ch =>
+          if mapped ≠ "0" ∧ mapped ≠ "1" then "bad-op"
+          else
+            -- `resaveVia mapsFile`: copy before the target is truncated iff not mapped or the guard fires
+            rtCore cls e t off shape inT vals e t true none none (!(mapped == "1") || mapsFile ch)
+      | _, _, _, _, _ => "bad-op"
+  | ["rtd", cls, e, hdr0, ovr, order, off, shape, inT, vals] =>
+      -- <order>: byte order of the dtype OBJECT handed to `dtype=` (native already resolved by the harness)
+      match parseEndian? e, dtypeOfName hdr0, dtypeOfName ovr, parseEndian? order, parseOptInt? off,
             parseNatList? shape, lookupClass cls with
-      | some e, some t0, some t, some sp, some off, some shape, some (layout, _, _, _, _, _) =>
+      | some e, some t0, some t, some dord, some off, some shape, some (layout, _, _, _, _, _) =>
           if layout = "mgh" then "bad-op"       -- MGHImage.to_file_map takes no `dtype=`
           else
-            let plan := saveDType ⟨e, t0⟩ (some (t, sp))
-            let r := rtCore cls plan.1.2 plan.1.1 off shape inT vals plan.2.1.endian plan.2.1.dtype false
-            if r.startsWith "ok " then
-              r ++ " after=" ++ nameOfDType plan.2.2.dtype ++ endianChar plan.2.2.endian
-            else r
+            let tb := codeTableOf cls
+            match codeOf tb t0 with
+            | none => "bad-op"
+            | some c0 =>
+              match saveDT tb .header ⟨e, c0⟩ (some ⟨t, dord⟩) with
+              | .error er => errName er
+              | .ok (wdt, wh, hafter) =>
+                -- the READER sees the written header only: its byte order and the dtype of its code
+                match dtypeOfCode tb wh.code, dtypeOfCode tb hafter.code with
+                | some rt, some ta =>
+                  let r := rtCore cls wdt.order wdt.t off shape inT vals wh.endian rt false
+                  if r.startsWith "ok " then
+                    r ++ " after=" ++ nameOfDType ta ++ endianChar hafter.endian
+                  else r
+                | _, _ => "bad-op"
       | _, _, _, _, _, _, _ => "bad-op"
   | ["sn", wr, a, o, size, rng] =>
       let r : Option Range :=
@@ -239,6 +357,10 @@ def handle : List String → String
                  | .ok hs => showList hs
                  | .error er => errName er)
       | _, _ => "bad-op"
+  | ["mf", chain] =>
+      match parseChain? chain with
+      | some ns => toString (mapsFile ns)
+      | none => "bad-op"
   | ["mghshape", shape] =>
       match parseNatList? shape with
       | some shape =>
